@@ -20,6 +20,7 @@ import (
 	"time"
 
 	"github.com/moorara/algo/generic"
+	"github.com/moorara/algo/grammar"
 	"github.com/moorara/algo/hash"
 	st "github.com/moorara/algo/symboltable"
 
@@ -410,6 +411,8 @@ func variants(kind string, tier string) []cfg {
 		add(67, 1, 4, 1, 2)
 		add(101, 3, 16, 3, 8)
 		add(127, 1, 8, 1, 2)
+		add(31, 1, 8, 3, 8)
+		add(67, 1, 16, 1, 4)
 	}
 	return vs
 }
@@ -661,8 +664,75 @@ func adversarial(r *rng.R, c cfg, thorough bool) {
 	runCase(c, nil, ops)
 }
 
+// clients (C03): the quadratic table inside grammar.Productions under head churn. No model of the client:
+// the driver only requires that no operation hangs or panics and that Get answers as a map of heads would.
+//
+//	header: client productions      ops: A i -> ok   R i -> ok   X i -> ok (RemoveAll)   G i -> <number of bodies>
+func runClient(ops []string) {
+	w.Begin("client productions")
+	ps := grammar.NewProductions()
+	prod := func(i int) *grammar.Production {
+		return &grammar.Production{Head: grammar.NonTerminal("N" + strconv.Itoa(i)), Body: grammar.String[grammar.Symbol]{grammar.Terminal("t")}}
+	}
+	res := guardedSeq(len(ops), func(j int) string {
+		f := strings.Fields(ops[j])
+		i, _ := strconv.Atoi(f[1])
+		switch f[0] {
+		case "A":
+			ps.Add(prod(i))
+			return "ok"
+		case "R":
+			ps.Remove(prod(i))
+			return "ok"
+		case "X":
+			ps.RemoveAll(grammar.NonTerminal("N" + strconv.Itoa(i)))
+			return "ok"
+		case "G":
+			l := ps.Get(grammar.NonTerminal("N" + strconv.Itoa(i)))
+			if l == nil {
+				return "0"
+			}
+			return strconv.Itoa(l.Size())
+		}
+		return "?"
+	})
+	for i, r := range res {
+		w.Op(ops[i], r)
+	}
+	w.End()
+	if hung >= maxHung {
+		w.Flush()
+		fmt.Fprintf(os.Stderr, "c02: %d operations hung; giving up\n", hung)
+		os.Exit(4)
+	}
+}
+
+func clients(r *rng.R, rounds int) {
+	var ops []string
+	resident := r.Range(0, 12)
+	for i := 0; i < resident; i++ {
+		ops = append(ops, fmt.Sprintf("A %d", i))
+	}
+	for i := 0; i < rounds; i++ {
+		k := 1000 + i
+		ops = append(ops, fmt.Sprintf("A %d", k))
+		if r.Chance(1, 2) {
+			ops = append(ops, fmt.Sprintf("R %d", k))
+		} else {
+			ops = append(ops, fmt.Sprintf("X %d", k))
+		}
+		if r.Chance(1, 4) {
+			ops = append(ops, fmt.Sprintf("G %d", k), fmt.Sprintf("G %d", r.Intn(resident+1)))
+		}
+	}
+	for i := 0; i <= resident; i++ {
+		ops = append(ops, fmt.Sprintf("G %d", i))
+	}
+	runClient(ops)
+}
+
 func main() {
-	mode := flag.String("mode", "exhaustive", "exhaustive|random|churn|adversarial")
+	mode := flag.String("mode", "exhaustive", "exhaustive|random|churn|adversarial|clients")
 	tier := flag.String("tier", "quick", "quick|thorough")
 	replay := flag.String("replay", "", "case file to re-execute")
 	only := flag.String("kind", "", "restrict to one table kind")
@@ -681,6 +751,10 @@ func main() {
 		}
 		maxHung = 1
 		for _, c := range cs {
+			if strings.HasPrefix(c.Head, "client") {
+				runClient(c.Ops)
+				continue
+			}
 			cf, h := parseHead(c.Head)
 			runCase(cf, h, c.Ops)
 		}
@@ -789,6 +863,15 @@ func main() {
 				c.hf = "fnv"
 				churn(r, c, 0, 200000)
 			}
+		}
+	case "clients":
+		r := rng.FromEnv(5)
+		n := 12
+		if thorough {
+			n = 60
+		}
+		for i := 0; i < n; i++ {
+			clients(r, r.Range(40, 400))
 		}
 	case "adversarial":
 		r := rng.FromEnv(4)
